@@ -80,6 +80,7 @@ fn main() {
         ccfgs.push(CfCfg::new(2, 2, 2, fps3.clone(), alt.clone(), None, if thorough { 8 } else { 3 }, false));
     }
     ccfgs.push(CfCfg::new(2, 2, 64, vec![1, 2, 1 << 63, u64::MAX], vec![0, 1, 1, 0], Some(2), 0, false));
+    ccfgs.push(CfCfg::new(2, 2, 64, vec![1, 2, 1 << 63, u64::MAX], vec![1, 0, 1, 0], Some(2), 0, true));
     ccfgs.push(CfCfg::new(3, 2, 2, fps3.clone(), vec![1, 0, 1], Some(2), 0, false));
     if thorough {
         for alt in cuckoo::all_alt_maps(3, 2) {
